@@ -5,7 +5,7 @@ matched token is found at a position `≥ start_pos` and `< len(source)`, positi
 `matched ≤ len(source)`, all distances are `≥ 0`, and `0.4 + 0.6·x` with `x = matched²/((matched+dev)·len(source)) ≤ 1`.
 -/
 namespace RTV.Choice
-open RTV.Py
+open RTV.Py RTV.Re
 
 theorem findTok_bounds (t : Str) : ∀ (l : List Str) (k r : Nat), findTok t l k = some r → k ≤ r ∧ r < k + l.length := by
   intro l
@@ -99,5 +99,233 @@ theorem matchValue_unit_interval (source match_ : List Str) (st : Int) (hst : 0 
       omega
   · simp only [hc, if_false]
     exact ⟨Score.zero, rfl, by decide, by decide, by decide⟩
+
+/-! ### the reported score: `top_score`, `extract`, `recognize_boolean` -/
+
+/-- a score inside `[0, 1]`: a fraction with a positive denominator and `0 ≤ num ≤ den` -/
+def InUnit (s : Score) : Prop := 0 < s.den ∧ 0 ≤ s.num ∧ s.num ≤ s.den
+
+theorem inUnit_zero : InUnit Score.zero := by unfold InUnit Score.zero; decide
+
+theorem topScore_fold_unit (source match_ : List Str) : ∀ (l : List Nat) (acc : Option Score),
+    (∀ a, acc = some a → InUnit a) → ∀ t,
+    l.foldl (fun acc (i : Nat) =>
+      match acc, matchValue (-1) source match_ (i : Int) with
+      | some t, some sc => some (if sc.gt t then sc else t)
+      | _, _ => none) acc = some t → InUnit t := by
+  intro l
+  induction l with
+  | nil => intro acc h t ht; exact h t ht
+  | cons i rest ih =>
+    intro acc h t ht
+    rw [List.foldl_cons] at ht
+    refine ih _ ?_ t ht
+    intro a ha
+    obtain ⟨sc, hsc, hu⟩ := matchValue_unit_interval source match_ (i : Int) (by omega)
+    cases acc with
+    | none => simp at ha
+    | some t0 =>
+      simp only [hsc] at ha
+      injection ha with ha
+      subst ha
+      split
+      · exact hu
+      · exact h t0 rfl
+
+/-- `top_score` (the maximum of `match_value` over every start position) lies in `[0, 1]` -/
+theorem topScore_unit (source match_ : List Str) (t : Score) (h : topScore (-1) source match_ = some t) : InUnit t := by
+  unfold topScore at h
+  exact topScore_fold_unit source match_ _ _ (by intro a ha; injection ha with ha; subst ha; exact inUnit_zero) t h
+
+theorem partialFor_unit (E : Env) (hm : E.missIndex = -1) (source trimmed : Str) (toks : List Str) (re : RE) (v : Bool)
+    (out : List ER) (h : partialFor E source trimmed toks re v = some out) : ∀ e ∈ out, InUnit e.score := by
+  unfold partialFor at h
+  rw [hm] at h
+  revert out
+  generalize getMatches E re trimmed = ms
+  suffices H : ∀ (ms : List (Nat × Str)) (acc : Option (List ER)), (∀ o, acc = some o → ∀ e ∈ o, InUnit e.score) →
+      ∀ out, ms.foldl (fun acc am =>
+        let m := am.2
+        match acc with
+        | none => none
+        | some out =>
+          match topScore (-1) toks (tokenize E m) with
+          | none => none
+          | some top =>
+            if top.gt Score.zero then
+              match (if E.useMatchOffset then some am.1 else findFrom trimmed m 0) with
+              | none => none
+              | some start =>
+                some (out ++ [⟨start, m.length, strip E.isSpace (sliceI source start (start + m.length)), v, top⟩])
+            else some out) acc = some out → ∀ e ∈ out, InUnit e.score by
+    intro out h
+    exact H ms (some []) (by intro o ho; injection ho with ho; subst ho; intro e he; simp at he) out h
+  intro ms
+  induction ms with
+  | nil => intro acc hacc out h; exact hacc out h
+  | cons am rest ih =>
+    intro acc hacc out h
+    rw [List.foldl_cons] at h
+    refine ih _ ?_ out h
+    intro o ho
+    cases acc with
+    | none => simp at ho
+    | some o0 =>
+      simp only at ho
+      cases ht : topScore (-1) toks (tokenize E am.2) with
+      | none => simp [ht] at ho
+      | some top =>
+        simp only [ht] at ho
+        have hu := topScore_unit _ _ _ ht
+        split at ho
+        · split at ho
+          · simp at ho
+          · injection ho with ho
+            subst ho
+            intro e he
+            rcases List.mem_append.1 he with he | he
+            · exact hacc o0 rfl e he
+            · simp at he; subst he; exact hu
+        · injection ho with ho
+          subst ho
+          exact hacc o0 rfl
+
+theorem mem_insertByStart (x y : ER) : ∀ l : List ER, y ∈ insertByStart x l ↔ y = x ∨ y ∈ l := by
+  intro l
+  induction l with
+  | nil => simp [insertByStart]
+  | cons z zs ih =>
+    rw [insertByStart]
+    split
+    · simp
+    · simp [ih]; constructor
+      · rintro (h | h | h)
+        · exact Or.inr (Or.inl h)
+        · exact Or.inl h
+        · exact Or.inr (Or.inr h)
+      · rintro (h | h | h)
+        · exact Or.inr (Or.inl h)
+        · exact Or.inl h
+        · exact Or.inr (Or.inr h)
+
+theorem mem_foldl_insert (y : ER) : ∀ (l acc : List ER),
+    y ∈ l.foldl (fun acc x => insertByStart x acc) acc ↔ y ∈ acc ∨ y ∈ l := by
+  intro l
+  induction l with
+  | nil => simp
+  | cons x xs ih =>
+    intro acc
+    rw [List.foldl_cons, ih, mem_insertByStart]
+    simp; constructor
+    · rintro ((h | h) | h)
+      · exact Or.inr (Or.inl h)
+      · exact Or.inl h
+      · exact Or.inr (Or.inr h)
+    · rintro (h | h | h)
+      · exact Or.inl (Or.inr h)
+      · exact Or.inl (Or.inl h)
+      · exact Or.inr h
+
+theorem mem_stableSort (y : ER) (l : List ER) : y ∈ extract.stableSort l ↔ y ∈ l := by
+  unfold extract.stableSort; rw [mem_foldl_insert]; simp
+
+theorem zipIdx_bound {α : Type} : ∀ (l : List α) (k : Nat) (p : α × Nat), p ∈ l.zipIdx k → p.2 < k + l.length := by
+  intro l
+  induction l with
+  | nil => intro k p h; simp at h
+  | cons a as ih =>
+    intro k p h
+    rw [List.zipIdx_cons] at h
+    rcases List.mem_cons.1 h with h | h
+    · subst h; simp
+    · have := ih (k + 1) p h
+      simp; omega
+
+theorem topIndex_fold (ps : List (ER × Nat)) : ∀ (acc : Score × Nat),
+    (ps.foldl (fun (acc : Score × Nat) (p : ER × Nat) => if p.1.score.gt acc.1 then (p.1.score, p.2) else acc) acc).2 = acc.2 ∨
+    ∃ p ∈ ps, (ps.foldl (fun (acc : Score × Nat) (p : ER × Nat) =>
+      if p.1.score.gt acc.1 then (p.1.score, p.2) else acc) acc).2 = p.2 := by
+  induction ps with
+  | nil => intro acc; left; rfl
+  | cons p rest ih =>
+    intro acc
+    rw [List.foldl_cons]
+    by_cases hg : p.1.score.gt acc.1 = true
+    · simp only [hg, if_true]
+      rcases ih (p.1.score, p.2) with h | ⟨p', hp', h⟩
+      · right; exact ⟨p, List.mem_cons_self, h⟩
+      · right; exact ⟨p', List.mem_cons_of_mem _ hp', h⟩
+    · simp only [hg]
+      rcases ih acc with h | ⟨p', hp', h⟩
+      · left; exact h
+      · right; exact ⟨p', List.mem_cons_of_mem _ hp', h⟩
+
+theorem topIndex_lt (l : List ER) (hl : l ≠ []) : topIndex l < l.length := by
+  unfold topIndex
+  rcases topIndex_fold l.zipIdx (Score.zero, 0) with h | ⟨p, hp, h⟩
+  · rw [h]; cases l with
+    | nil => exact absurd rfl hl
+    | cons a as => simp
+  · rw [h]; have := zipIdx_bound l 0 p hp; omega
+
+/-- whatever `extract` reports carries a score in `[0, 1]` (`index_of` answering `-1` on a miss) -/
+theorem extract_unit (E : Env) (hm : E.missIndex = -1) (q : Str) (ers : List ER) (h : extract E q = some ers) :
+    ∀ e ∈ ers, InUnit e.score := by
+  unfold extract at h
+  simp only at h
+  split at h
+  · injection h with h; subst h; intro e he; simp at he
+  · cases hts : partialFor E q (E.lower q) (tokenize E (E.lower q)) E.trueRe true with
+    | none => simp [hts] at h
+    | some ts =>
+      cases hfs : partialFor E q (E.lower q) (tokenize E (E.lower q)) E.falseRe false with
+      | none => simp [hts, hfs] at h
+      | some fs =>
+        simp only [hts, hfs] at h
+        split at h
+        · injection h with h; subst h; intro e he; simp at he
+        · rename_i hne
+          injection h with h
+          subst h
+          intro e he
+          simp only [List.mem_singleton] at he
+          have hs : extract.stableSort (ts ++ fs) ≠ [] := by
+            intro hnil
+            cases hp : ts ++ fs with
+            | nil => exact hne hp
+            | cons a as =>
+              have : a ∈ extract.stableSort (ts ++ fs) := (mem_stableSort a _).2 (by rw [hp]; simp)
+              rw [hnil] at this; simp at this
+          have hlt := topIndex_lt _ hs
+          have hmem : e ∈ extract.stableSort (ts ++ fs) := by
+            rw [he, List.getD_eq_getElem?_getD, List.getElem?_eq_getElem hlt]; simp
+          have := (mem_stableSort e _).1 hmem
+          rcases List.mem_append.1 this with h1 | h1
+          · exact partialFor_unit E hm _ _ _ _ _ ts hts e h1
+          · exact partialFor_unit E hm _ _ _ _ _ fs hfs e h1
+
+/-- C20 (score, UNIVERSAL): whatever `recognize_boolean` reports carries a score in `[0, 1]` — every query, every
+environment in which `index_of` answers `-1` on a miss, both parser variants (the extractor's `top_score` handed on, or
+the constructor default `0.0`) -/
+theorem recognise_unit (E : Env) (hm : E.missIndex = -1) (q : Str) (rs : List MR) (h : recognise E q = some rs) :
+    ∀ r ∈ rs, InUnit r.score := by
+  unfold recognise at h
+  cases he : extract E q with
+  | none =>
+    simp only [he] at h
+    split at h
+    · injection h with h; subst h; intro r hr; simp at hr
+    · simp at h
+  | some ers =>
+    simp only [he] at h
+    injection h with h
+    subst h
+    intro r hr
+    obtain ⟨e, hemem, rfl⟩ := List.mem_map.1 hr
+    show InUnit (parserScore E e)
+    unfold parserScore
+    split
+    · exact extract_unit E hm q ers he e hemem
+    · exact inUnit_zero
 
 end RTV.Choice
